@@ -1,4 +1,4 @@
-import ScrutModel.Lemmas.OneLiner
+import ScrutModel.Lemmas.OneLinerAll
 /-!
 # C17 — Configuration survives being written out and read back
 
@@ -10,32 +10,24 @@ typed layer of `TestCaseConfig`). All of it is tied to the real code on every ru
 correspondence harness (`harness/src/yamlcfg.rs`).
 
 Proved here for ALL values:
-* durations (`C17_duration_roundtrip`) and quoted strings (`C17_quote_roundtrip`,
-  `C17_quoted_scalar_in_context`) — the two parts where hand-written formatting has to be an inverse
-  of a parser;
-* `C17_rendered_ast_reads_back`: the whole flow parser (reader check, line-break check, key/value
-  scanning, nested mapping, separators, 1024-byte key rule) reads back ANY list of rendered
-  `key: value` pieces whose plain scalars are tokens (`Tok`: no `, [ ] { } : #`, no line break,
-  readable, valid first character, no trailing blank), whatever the quoted strings contain;
-* `C17_one_liner_scalars`: the full statement `parseFlow (toOneLiner c) = .ok c` for every
-  configuration over the keys output_stream, keep_crlf, timeout, detached, strip_ansi_escaping
-  (every subset, every duration).
+* `C17_one_liner`: **every** configuration of the model's config type — any subset of the 8 keys, any
+  stream/booleans, any `i32` skip code, any durations, `wait` in both forms with any path,
+  `environment` with any names and values (quotes, backslashes, colons, braces, commas, `#`, blanks,
+  control characters, any Unicode) — is read back from its one-line form exactly, under the decidable
+  guard `Renderable`:
+  durations are `Duration`s (`secs < 2^64`, `nanos < 10^9`), the skip code is an `i32` (both are
+  invariants of the Rust types) and every environment name renders to a key of at most 1024 UTF-8
+  bytes (names over 1024 bytes, 1022 when they have to be quoted: the REAL code does not round-trip
+  them — open finding `C17:long-key`, `C17_fails_on_long_name`). Each conjunct of the guard is
+  necessary: `C17_guard_*` witnesses.
+* the ingredients: durations (`C17_duration_roundtrip`), quoted strings (`C17_quote_roundtrip`,
+  `C17_quoted_scalar_in_context`), the parser side for any rendered pieces
+  (`C17_rendered_ast_reads_back`), the scalar-key corollary (`C17_one_liner_scalars`).
 
-NOT proved (full-strength statement, kept visible):
-
-    theorem C17_one_liner (c : Cfg) (h : Renderable c) : parseFlow (toOneLiner c) = .ok c
-
-where `Renderable` has to require (because the REAL code violates the property otherwise, see
-`C17_fails_on_long_name`, oracle class `C17:long-key`): the rendered environment names are at most
-1024 UTF-8 bytes; plus the type invariants (`nanos < 10^9`, `secs < 2^64`, skip code in `i32`,
-distinct environment names). By `C17_rendered_ast_reads_back` what is missing is only:
-(1) `Tok (intDigits i)` and `intOfText (intDigits i) = some i` (no leading zeros, value of the digits);
-(2) `isPlainSafe p → Tok p ∧ ¬ isNullText p` (character-order reasoning for names and paths);
-(3) `plainIsString (durText d)` for `wait: 2m 3s` (a formatted duration is not null/bool/number-like);
-(4) the typed layer for `wait: {timeout, path}` and `environment` (`envOf (envVal e) = e`).
-These configurations are covered by the harness (every key subset, the string alphabet in every
-position, random configurations) through the model and the real `serde_yaml`, and by the concrete
-instances below.
+The environment is the ascending entry list of the `BTreeMap`; the theorem holds for any list (the
+parser returns the entries in document order), so no distinctness hypothesis is needed.
+Front-matter (`DocumentConfig` through serde_yaml's block emitter) and the code-fence embedding are
+not modelled: direct oracle on the real code only.
 -/
 namespace Scrut.Props.C17
 open Scrut.Dur Scrut.Yaml
@@ -85,6 +77,17 @@ def scalarExample : Cfg :=
 example : ScalarOnly scalarExample :=
   ⟨rfl, rfl, rfl, fun d hd => by cases hd; exact ⟨by decide, by decide⟩⟩
 
+/-- the guard of C17 (decidable: `renderable` is a Boolean function) -/
+def Renderable (c : Cfg) : Prop := renderable c = true
+
+instance (c : Cfg) : Decidable (Renderable c) := inferInstanceAs (Decidable (renderable c = true))
+
+/-- **C17**: every renderable configuration survives `to_yaml_one_liner` followed by
+`serde_yaml::from_str` (as modelled by `parseFlow`): same stream, booleans, code, durations, wait
+settings and environment names and values, character for character. -/
+theorem C17_one_liner (c : Cfg) (h : Renderable c) : parseFlow (toOneLiner c) = .ok c :=
+  one_liner_all c h
+
 /-- all eight keys set, values with quotes, backslash, braces, commas, `#`, colon, blanks, a
 control character and non-ASCII text -/
 def fullExample : Cfg :=
@@ -122,6 +125,33 @@ set_option maxRecDepth 100000 in
 /-- **the real code violates C17 here**: YAML only accepts mapping keys of at most 1024 bytes on
 one line ("simple keys"); a longer environment variable name is written out but not read back. -/
 theorem C17_fails_on_long_name : parseFlow (toOneLiner longNameWitness) = .error := by rfl
+
+set_option maxRecDepth 100000 in
+/-- non-vacuity of `Renderable`: the example with all eight keys and hostile strings satisfies it -/
+theorem C17_renderable_example : Renderable fullExample ∧ Renderable unreadableExample ∧ Renderable {} := by
+  refine ⟨?_, ?_, ?_⟩ <;> rfl
+
+set_option maxRecDepth 100000 in
+/-- the guard excludes the long-name witness (and `C17_fails_on_long_name` shows it must) -/
+theorem C17_guard_long_name : ¬ Renderable longNameWitness := by
+  intro h
+  have : renderable longNameWitness = false := by rfl
+  rw [Renderable, this] at h
+  cases h
+
+/-- the guard is necessary for seconds: 2^64 s is written as `584542046090years …` and overflows
+the `u64` arithmetic of `parse_duration` -/
+theorem C17_guard_secs : parseFlow (toOneLiner { timeout := some (18446744073709551616, 0) }) = .error := by
+  rfl
+
+/-- the guard is necessary for nanoseconds: (0 s, 10^9 ns) is written `1000ms` and reads back as 1 s -/
+theorem C17_guard_nanos :
+    parseFlow (toOneLiner { timeout := some (0, 1000000000) }) = .ok { timeout := some (1, 0) } := by
+  rfl
+
+/-- the guard is necessary for the skip code: 2^31 is not an `i32` -/
+theorem C17_guard_skip_code : parseFlow (toOneLiner { skipCode := some 2147483648 }) = .error := by
+  rfl
 
 /-- non-vacuity of the duration hypotheses, largest value -/
 example : parseDuration (formatDuration 18446744073709551615 999999999) =
